@@ -140,15 +140,20 @@ def indexed_shape(shape: Shape, idx: ArrayIndex) -> Tuple[int, ...]:
     idx_shape: List[Optional[int]] = list(shape)
     offset = 0
     newaxis = 0
+    num_none = sum(1 for ax_idx in idx if ax_idx is None)
+    if sum(1 for ax_idx in idx if ax_idx is not None and ax_idx is not Ellipsis) > len(shape):
+        raise ValueError(f"Too many indices {idx} for array of shape {shape}.")
     for axis, ax_idx in enumerate(idx):
         if ax_idx is None:
-            idx_shape.insert(axis, 1)
+            idx_shape.insert(axis + offset, 1)
             newaxis += 1
             continue
         if ax_idx is Ellipsis:
-            offset = len(shape) - len(idx)
+            offset = len(shape) + num_none - len(idx)
             continue
-        idx_shape[axis + offset + newaxis] = slice_length(shape[axis + offset], ax_idx)
+        # axis + offset is the position in the indexed shape (which includes the
+        # new axes inserted so far), axis + offset - newaxis that in the array shape
+        idx_shape[axis + offset] = slice_length(shape[axis + offset - newaxis], ax_idx)
     return tuple(filter(lambda x: x is not None, idx_shape))  # type: ignore
 
 
